@@ -74,11 +74,17 @@ struct alignas(ALIGN) Inst {
     Inst& operator=(Inst&& o) noexcept { v = o.v; log_event("MA:" + std::to_string(PAL) + ":" + place_of(this) + ":" + place_of(&o)); return *this; }
     ~Inst() { log_event("D:" + std::to_string(PAL) + ":" + place_of(this)); }
 };
+static void respawn_hook(const Entity& e, World& w);
 using N2 = Inst<2, 8, false>;
 struct N3 : Inst<3, 8, true> {
     using Inst<3, 8, true>::Inst;
     static void afterAssign(N3& self, const Entity& e) { log_event_entity("AA:3:" + place_of(&self) + ":", e); }
-    static void beforeRemove(N3& self, const Entity& e) { log_event_entity("BR:3:" + place_of(&self) + ":", e); }
+    // with `respawn <n>` armed, the next n removals of an N3 re-enter the library from inside the hook: a replacement entity is created
+    // in the archetype the removal is happening in (unlocked removals only: a locked manager would merely record it)
+    static void beforeRemove(N3& self, const Entity& e, World& w) {
+        log_event_entity("BR:3:" + place_of(&self) + ":", e);
+        respawn_hook(e, w);
+    }
 };
 using N5 = Inst<5, 64, false>;
 // constructible from the owning entity's handle and (the same constructor, defaulted argument) from nothing
@@ -384,7 +390,7 @@ static void dump(std::ostream& out) {
     }
     out << "\nM";
     for (auto e : em.marked_for_delete_) out << " " << hname(e);
-    out << "\nK " << em.lock_counter_ << " " << em.next_entity_id_.load() << " " << em.temporal_storages_.size() << "\n";
+    out << "\nK " << em.lock_counter_ << " " << static_cast<uint32_t>(em.next_entity_id_) << " " << em.temporal_storages_.size() << "\n";
     for (size_t t = 0; t < em.temporal_storages_.size(); ++t) {
         auto& st = em.temporal_storages_[ThreadId::make(t)];
         if (st.actions_.empty()) continue;
@@ -523,6 +529,14 @@ static void run_on(int tid, std::function<void()> fn) {
 // ------------------------------------------------------------------------------------------------
 // operations
 // ------------------------------------------------------------------------------------------------
+static int g_respawn = 0;
+static size_t issue(Entity e);
+static void respawn_hook(const Entity& e, World& w) {
+    auto& em = w.entities();
+    if (g_respawn <= 0 || em.isLocked()) return;
+    --g_respawn;
+    if (auto* arch = em.getArchetypeOf(e)) { Entity n = em.create(*arch); issue(n); }
+}
 static Entity parse_handle(const std::string& tok) {
     Driver& d = *g_drv;
     if (tok == "null") return Entity{};
@@ -740,6 +754,7 @@ static std::string run_script(const std::vector<std::string>& lines, std::ostrea
             }
             R << "pcreatenew workers=" << n << " created=" << total << " dup_arch=" << dup_arch << " miscount=" << miscount << " invalid=" << invalid;
         }
+        else if (op == "respawn") { in >> g_respawn; }
         else if (op == "arm") { arm(); }
         else if (op == "disarm") { disarm(); }
         else if (op == "create") {
